@@ -45,11 +45,19 @@ def exec_job(job):
             if "frm" in job:   # history: built for another platform / version, rendered, then switched in place
                 import netports
                 f = job["frm"]
-                p = Port(f"{job.get('op', 'eq')} {operand}", platform=f["plat"], version=f["ver"], protocol=job["proto"])
+                p = Port(f"{job.get('op', 'eq')} {operand}", platform=f["plat"], version=f["ver"], protocol=f.get("proto", job["proto"]))
                 _ = p.line
+                if f.get("proto", job["proto"]) != job["proto"]:
+                    p.protocol = job["proto"]        # tcp <-> udp on the live object: the number stays, the name follows the new table
                 if f["plat"] != job["plat"]:
                     p.platform = job["plat"]
                 p.version = netports.SwVersion(job["ver"] or "0")
+            elif job.get("via") == "aces":     # through the configuration front end: the version must reach the entry's ports
+                import cisco_acl
+                hdr = "ip access-list extended A" if job["plat"] == "ios" else "ip access-list A"
+                acl = cisco_acl.aces(config=f"{hdr}\n permit {job['proto']} any any eq {operand}\n", platform=job["plat"], version=job["ver"])
+                leaves = [x for x in acl if type(x).__name__ == "Ace"]
+                p = leaves[0].dstport
             else:
                 p = Port(f"{job.get('op', 'eq')} {operand}", **kw)
             e["items"] = list(p.items)
@@ -145,6 +153,20 @@ def run(tier, seed):
                         for n in sorted(numbers_named):
                             if rng.random() < (0.5 if tier == "quick" else 1.0):
                                 add(act="PortNum", plat=plat, ver=ver, vmajor=vmaj, proto=proto, n=n, frm=dict(plat=fplat, ver=fver))
+        # the same with the protocol switched on the live object
+        for ver, vmaj in VERSIONS:
+            for proto in ("tcp", "udp"):
+                other = "udp" if proto == "tcp" else "tcp"
+                for n in sorted(numbers_named):
+                    if rng.random() < (0.5 if tier == "quick" else 1.0):
+                        add(act="PortNum", plat=plat, ver=ver, vmajor=vmaj, proto=proto, n=n, frm=dict(plat=plat, ver=ver, proto=other))
+        # the config-level entry point aces() with the software version
+        if plat != "asa":
+            for ver, vmaj in VERSIONS:
+                for proto in ("tcp", "udp"):
+                    for n in sorted(numbers_named):
+                        if rng.random() < (0.3 if tier == "quick" else 1.0):
+                            add(act="PortNum", plat=plat, ver=ver, vmajor=vmaj, proto=proto, n=n, via="aces")
         for nr in (False, True):
             for hp in (False, True):
                 for n in list(range(0, 256)) + [256, 300]:
